@@ -745,3 +745,54 @@ def rule_new_callee_is_member_expression(ctx, rep, rid: str) -> None:
             rep.ok(rid, key)
         else:
             rep.bad(rid, key, f"{m.qual}: {why}; `new a.b(x)` is parsed as `(new a).b(x)` and fails with 'not a constructor'", m.loc)
+
+
+def rule_literal_scanner_details(ctx, rep, rid: str) -> None:
+    """Three places where the scanner of literals meets the layout of the source: a backslash-newline inside a string
+    literal is a LineContinuation (no characters), a RegularExpressionLiteral may begin with `=` although `/=` is also
+    a punctuator, and a RegularExpressionBackslashSequence cannot contain a line terminator."""
+    rep.rule(rid, "the string scanner has an escape branch for the line break that appends nothing; where the parser expects an operand it starts a regex literal on `/=` as well as on `/`; the regex-literal scanner refuses a line break after a backslash", floor=3)
+    lx = ctx.tree.class_named("Lexer")
+    ps = ctx.tree.class_named("Parser")
+    # (1) string escapes
+    rs = [m for m in lx.methods.values() if not isinstance(m.node, ast.Lambda) and any(isinstance(c, ast.Compare) and norm(c.left) == "escape" for c in m.own_nodes())]
+    if not rs:
+        raise AnalysisError(f"{rid}: the string scanner's escape chain was not found")
+    for m in rs:
+        key = f"{m.qual}:line-continuation"
+        ok = False
+        for t in m.own_nodes():
+            if isinstance(t, ast.If) and any(isinstance(c, ast.Compare) and norm(c.left) == "escape" and any((isinstance(k, ast.Constant) and k.value == "\n") or (isinstance(k, (ast.Tuple, ast.List, ast.Set)) and any(isinstance(e, ast.Constant) and e.value == "\n" for e in k.elts)) or (isinstance(k, ast.Constant) and isinstance(k.value, str) and "\n" in k.value and len(k.value) > 1) for k in c.comparators) for c in ast.walk(t.test)):
+                appends = [c for b in t.body for c in ast.walk(b) if isinstance(c, ast.Call) and isinstance(c.func, ast.Attribute) and c.func.attr == "append"]
+                if not appends:
+                    ok = True
+        if ok:
+            rep.ok(rid, key)
+        else:
+            rep.bad(rid, key, f"{m.qual} has no escape branch for a line break: `'a\\<LF>b'` keeps the line break (\"a<LF>b\") through the default branch, although backslash-newline is a line continuation that stands for nothing", m.loc)
+    # (2) regex literal on /=
+    n2 = 0
+    for m in ps.methods.values():
+        if isinstance(m.node, ast.Lambda):
+            continue
+        for t in m.own_nodes():
+            if isinstance(t, ast.If) and any(isinstance(c, ast.Call) and isinstance(c.func, ast.Attribute) and c.func.attr == "read_regex_literal" for b in t.body for c in ast.walk(b)):
+                n2 += 1
+                key = f"{m.qual}:regex-on-slash-assign"
+                if "SLASH_ASSIGN" in norm(t.test):
+                    rep.ok(rid, key)
+                else:
+                    rep.bad(rid, key, f"{m.qual} starts a regex literal only on the `/` token (`{short(t.test, 50)}`): `/=a/` is lexed as the `/=` operator and rejected, although a pattern may begin with `=`", f"{m.module.rel}:{t.lineno}")
+    if n2 == 0:
+        raise AnalysisError(f"{rid}: no parser branch calls read_regex_literal")
+    # (3) backslash then line break in a regex literal
+    rr = lx.methods.get("read_regex_literal")
+    if rr is None:
+        raise AnalysisError(f"{rid}: Lexer.read_regex_literal not found")
+    key = f"{rr.qual}:backslash-line-break"
+    esc = [t for t in rr.own_nodes() if isinstance(t, ast.If) and "'\\\\'" in norm(t.test).replace('"', "'")]
+    guarded = any(isinstance(r, ast.Raise) for t in esc for b in t.body for r in ast.walk(b)) or any(isinstance(t, ast.If) and "\\n" in norm(t.test) and "self.pos + 1" in norm(t.test) and any(isinstance(r, ast.Raise) for r in ast.walk(t)) for t in rr.own_nodes())
+    if guarded:
+        rep.ok(rid, key)
+    else:
+        rep.bad(rid, key, f"{rr.qual} copies the character after a backslash whatever it is: a regex literal continues across a line break that follows a backslash", rr.loc)
